@@ -609,3 +609,85 @@ Definition fcase_signature (c : fcase) : nat * nat * nat :=
   let evs := flat_map fo_events (fc_steps c) in
   (length (filter (fun e => fst (fst e) =? 0) evs), length (filter (fun e => fst (fst e) =? 1) evs),
    length (filter (fun e => (3 <=? fst (fst e)) && (fst (fst e) <=? 5)) evs)).
+
+(* ------------------------------------------------------------------------------------------ *)
+(* tracker with concurrent owners: the thread model (C13_TrFine) against the implementation      *)
+(* ------------------------------------------------------------------------------------------ *)
+From Dae Require Import C13_TrFine.
+From Dae.gen Require Import C13_Consts.
+
+Definition opc_of (s : trstate) (i : nat) : opc := match nth_error (r_thr s) i with Some t => o_pc t | None => ODone end.
+Definition omode_of (s : trstate) (i : nat) : nat := match nth_error (r_thr s) i with Some t => o_mode t | None => 0 end.
+
+(* woken waiters run (lowest index first) until none is left *)
+Fixpoint tr_settle (fuel : nat) (s : trstate) : trstate :=
+  match fuel with
+  | 0 => s
+  | S f =>
+      match find (fun it => match o_pc (snd it) with ORWoken | OFWoken => true | _ => false end) (indexed 0 (r_thr s)) with
+      | Some it => tr_settle f (tr_step retain_rechecks_after_wait s (fst it))
+      | None => s
+      end
+  end.
+
+Definition tr_exec (s : trstate) (i : nat) : trstate :=
+  match opc_of s i with
+  | ORWait _ | OFWait _ | ODone | ORWoken | OFWoken => s
+  | OHeld => match omode_of s i with 0 => s | _ => tr_settle 40 (tr_step retain_rechecks_after_wait s i) end
+  | _ => tr_settle 40 (tr_step retain_rechecks_after_wait s i)
+  end.
+
+Definition opc_code (t : othread) : nat :=
+  match o_pc t with
+  | OStart => 0 | ORWait _ | ORWoken => 1 | OHeld => 2 | OKernel _ => 3 | OFinal _ => 4 | ODone => 5 | OFWait _ | OFWoken => 6
+  end.
+
+Record tfobs := mkTFO { tf_cmd : nat; tf_thr : list nat; tf_entries : list (option (nat * nat)); tf_deletes : list nat }.
+Record tfcase := mkTFCase { tfc_keys : nat; tfc_threads : list (nat * nat); tfc_steps : list tfobs }.
+Definition en (a b : nat) : option (nat * nat) := Some (a, b).
+
+Definition entry_view (s : trstate) (k : nat) : option (nat * nat) :=
+  match r_entries s k with Some e => Some (fe_refs e, if fe_deleting e then 1 else 0) | None => None end.
+Definition oent_eqb (a b : option (nat * nat)) : bool :=
+  match a, b with Some x, Some y => pair_nat_eqb x y | None, None => true | _, _ => false end.
+
+(* the property on an observation: per tuple, owners = threads reported as owner (2) or blocked in forget (6) *)
+Definition obs_owners (thr : list (nat * nat)) (codes : list nat) (k : nat) : nat :=
+  length (filter (fun tc => (fst (fst tc) =? k) && ((snd tc =? 2) || (snd tc =? 6))) (combine thr codes)).
+Definition obs_ok (thr : list (nat * nat)) (keys : nat) (o : tfobs) : bool :=
+  forallb (fun k =>
+    let n := obs_owners thr (tf_thr o) k in
+    match nth k (tf_entries o) None with
+    | None => n =? 0
+    | Some (refs, 1) => (n =? 0) && (refs =? 0)
+    | Some (refs, _) => (refs =? n) && (0 <? n)
+    end) (seq 0 keys)
+  && forallb (fun k => obs_owners thr (tf_thr o) k =? 0) (tf_deletes o).
+
+Record tfacc := mkTFA { tfa_errs : list (nat * nat); tfa_s : trstate; tfa_n : nat }.
+
+(* codes: (n,1) impl<>model; (n,2) impl<>spec; (n,3) model<>spec *)
+Definition tf_step (thr : list (nat * nat)) (keys : nat) (a : tfacc) (o : tfobs) : tfacc :=
+  let s := tfa_s a in
+  let s' := tr_exec s (tf_cmd o) in
+  let mdel := map fst (skipn (length (r_deletes s)) (r_deletes s')) in
+  let mobs := mkTFO (tf_cmd o) (map opc_code (r_thr s')) (map (entry_view s') (seq 0 keys)) mdel in
+  let n := tfa_n a in
+  mkTFA (tfa_errs a
+         ++ (if list_eqb Nat.eqb (tf_thr mobs) (tf_thr o) && list_eqb oent_eqb (tf_entries mobs) (tf_entries o)
+                && list_eqb Nat.eqb mdel (tf_deletes o) then [] else [(n, 1)])
+         ++ (if obs_ok thr keys o then [] else [(n, 2)])
+         ++ (if obs_ok thr keys mobs then [] else [(n, 3)]))
+        s' (S n).
+
+Definition first_of_codes (l : list (nat * nat)) : list (nat * nat) := first_of_each l.
+
+Definition tfcheck_case (c : tfcase) : list (nat * nat) :=
+  first_of_codes (tfa_errs (fold_left (tf_step (tfc_threads c) (tfc_keys c)) (tfc_steps c)
+                                      (mkTFA [] (tr_init (tfc_threads c)) 0))).
+
+(* signature: kernel deletes, commands after which some thread was blocked, threads *)
+Definition tfcase_signature (c : tfcase) : nat * nat * nat :=
+  (length (flat_map tf_deletes (tfc_steps c)),
+   length (filter (fun o => existsb (fun x => (x =? 1) || (x =? 6)) (tf_thr o)) (tfc_steps c)),
+   length (tfc_threads c)).
